@@ -415,7 +415,9 @@ func (p *printer) textVal(v *TextVal) {
 	v.Span = p.open()
 	if v.Format {
 		p.ts("format", "(")
+		v.LitSpan = p.open()
 		p.strLit(v.Lit)
+		p.close(v.LitSpan)
 		for _, fp := range v.Params {
 			p.t(",")
 			if fp.Name != "" {
@@ -425,7 +427,9 @@ func (p *printer) textVal(v *TextVal) {
 		}
 		p.t(")")
 	} else {
+		v.LitSpan = p.open()
 		p.strLit(v.Lit)
+		p.close(v.LitSpan)
 	}
 	p.close(v.Span)
 }
